@@ -12,7 +12,7 @@ var props = map[string]propCfg{
 	"C25": {
 		Flavor: "worker-plain", Level: "fault_enumeration",
 		QuickRuns: 1 << 30, QuickDL: 25 * time.Second, ThorDL: 10 * time.Minute, ThorSeeds: 5,
-		Rule: "a run = one tape-generated packet sequence (SLIP or SLIPMUX, bytes biased to END/ESC/ESC_END/ESC_ESC) written by the real writer, then read back (a) fault-free and strict, (b) once per (wire offset x stall kind) with a single transient empty read injected there - complete for streams up to the stated limit, (c) under 1..3 tape-drawn multi-stall/bounded-chunk schedules. evaluations = runs; sim_steps = reader executions. Non-trivial = at least one fault-injected execution; distinct = distinct event-log digests (wire bytes + schedule outcomes).",
+		Rule:      "a run = one tape-generated packet sequence (SLIP or SLIPMUX, bytes biased to END/ESC/ESC_END/ESC_ESC) written by the real writer, then read back (a) fault-free and strict, (b) once per (wire offset x stall kind) with a single transient empty read injected there - complete for streams up to the stated limit, (c) under 1..3 tape-drawn multi-stall/bounded-chunk schedules. evaluations = runs; sim_steps = reader executions. Non-trivial = at least one fault-injected execution; distinct = distinct event-log digests (wire bytes + schedule outcomes).",
 		Real:      []string{"slip.Writer", "slip.Reader", "slip.SlipMuxWriter", "slip.SlipMuxReader", "slip FCS16"},
 		Stub:      []string{"byte stream transport (sim.Stream)", "consumer loop concatenating isPrefix fragments"},
 		Assume:    append([]string{"transient empty reads are (0,nil), (0,io.EOF) and, for the raw reader only, (0,timeout error); (n>0,err!=nil) results are not produced", "single-threaded: concurrent writers are not simulated"}, commonAssume...),
@@ -21,7 +21,7 @@ var props = map[string]propCfg{
 	"C26": {
 		Flavor: "worker-plain", Level: "fault_enumeration",
 		QuickRuns: 1 << 30, QuickDL: 40 * time.Second, ThorDL: 10 * time.Minute, ThorSeeds: 5,
-		Rule: "a run = 1..8 messages, each of a tape-chosen registered type (all entries of the request/response/event constructor tables plus ErrorResponse) with fields filled by reflection from the tape, written back-to-back by WriteProtocolMessage, then read through bufio+ReadProtocolMessage (a) fault-free, (b) with every read bounded to 1/2/3/7 bytes, (c) once per split offset (two reads) and once per cut offset - complete per stream up to the stated limit, (d) under 1..3 tape-drawn short-read / empty-read-burst / cut schedules. evaluations = runs; sim_steps = reader executions; distinct = distinct event-log digests (message bytes + schedule outcomes); all runs are non-trivial (faults are injected in every run).",
+		Rule:      "a run = 1..8 messages, each of a tape-chosen registered type (all entries of the request/response/event constructor tables plus ErrorResponse) with fields filled by reflection from the tape, written back-to-back by WriteProtocolMessage, then read through bufio+ReadProtocolMessage (a) fault-free, (b) with every read bounded to 1/2/3/7 bytes, (c) once per split offset (two reads) and once per cut offset - complete per stream up to the stated limit, (d) under 1..3 tape-drawn short-read / empty-read-burst / cut schedules. evaluations = runs; sim_steps = reader executions; distinct = distinct event-log digests (message bytes + schedule outcomes); all runs are non-trivial (faults are injected in every run).",
 		Real:      []string{"dap.WriteProtocolMessage", "dap.ReadProtocolMessage", "dap.ReadBaseMessage", "dap.DecodeProtocolMessage", "schematypes constructor tables", "bufio.Reader", "encoding/json"},
 		Stub:      []string{"byte stream under bufio (sim.Stream)"},
 		Assume:    append([]string{"equality is json.Marshal(decoded)==json.Marshal(original) plus identical dynamic type; interface{} fields hold JSON-normalised values", "(0,nil) bursts stay below bufio's 100-empty-read limit; (0,io.EOF) is only injected as a permanent cut"}, commonAssume...),
@@ -30,10 +30,19 @@ var props = map[string]propCfg{
 	"C10": {
 		Flavor: "worker-plain", Level: "exploration",
 		QuickRuns: 1 << 30, QuickDL: 45 * time.Second, ThorDL: 30 * time.Minute, ThorSeeds: 5,
-		Rule: "a run = one tape-drawn configuration (allocator copy, initial/max pages, stack pointer, heap base incl. bases a few bytes below the end of memory, fixed-list capacity incl. 0) and 1..400 malloc/free operations (sizes biased to class boundaries, powers of two, page multiples; frees by LIFO/FIFO/random/address-adjacent policy) with memory.grow refused by the simulator at tape-chosen operations and the client filling every byte of every block; the full heap layout is re-derived from linear memory and checked after every operation. evaluations = runs, sim_steps = operations; non-trivial = at least 2 operations; distinct = distinct event-log digests.",
+		Rule:      "a run = one tape-drawn configuration (allocator copy, initial/max pages, stack pointer, heap base incl. bases a few bytes below the end of memory, fixed-list capacity incl. 0) and 1..400 malloc/free operations (sizes biased to class boundaries, powers of two, page multiples; frees by LIFO/FIFO/random/address-adjacent policy) with memory.grow refused by the simulator at tape-chosen operations and the client filling every byte of every block; the full heap layout is re-derived from linear memory and checked after every operation. evaluations = runs, sim_steps = operations; non-trivial = at least 2 operations; distinct = distinct event-log digests.",
 		Real:      []string{"internal/waroot/malloc/malloc.wat (embedded template)", "waroot/src/runtime/heap_malloc.wat.ws (embedded std FS)", "watutil.Wat2Wasm", "vendored wazero"},
 		Stub:      []string{"memory.grow (host function that really grows or refuses)", "the client (fills payloads, frees live blocks only)", "loop fuel counter inserted at every WAT loop header (deterministic step bound)", "module wrapper for the runtime copy"},
 		Assume:    append([]string{"heap sizes up to 64 pages; requests up to the configured maximum memory (2^30-byte requests are not exercised in this tier)", "an exact fit below heap_top that the allocator treats conservatively (grows) is not demanded"}, commonAssume...),
 		StateRule: "abstract allocator state = (bucketed lengths of l24/l32/l48/l80, bucketed general-list length, bucketed live count, memory pages, fixed capacity)",
+	},
+	"C13": {
+		Flavor: "worker-plain", Level: "exploration",
+		QuickRuns: 1 << 30, QuickDL: 50 * time.Second, ThorDL: 30 * time.Minute, ThorSeeds: 5,
+		Rule:      "a run = one generated map driver (key kind x value kind, compiled by the real compiler, chosen per block of runs) and one tape-drawn history of put/overwrite/get/comma-ok/delete/len/range/range-with-delete/fresh/alias operations over 3 map slots and a key pool of 2..2000 (with ascending, descending, delete-in-order and churn phases), executed twice on fresh instances: with the plain allocator and under a tape-drawn allocator fault mode (poison on free + dirty fresh memory on the real allocator, host allocator with immediate reuse, quarantine, or scattered placement); every result is compared with a Go map model. Non-trivial = the run freed at least one block under the fault mode; distinct = distinct event-log digests.",
+		Real:      []string{"Wa compiler pipeline (loader, type checker, SSA, WAT backend)", "waroot/src/runtime/map.wa", "waroot/src/runtime/interface.wa", "reference-counting runtime heap.wat.ws", "watutil.Wat2Wasm", "vendored wazero", "real allocator in plain and wrap_poison modes"},
+		Stub:      []string{"$runtime.malloc/$runtime.free seam (WAT text rewrite to host functions)", "host allocator in sim_* modes", "loop fuel counter", "initial memory size (256 pages)"},
+		Assume:    append([]string{"floating-point keys exclude NaN", "range order is not compared", "range-with-delete deletes only the key being visited: every key present at the start of the loop must still be visited exactly once"}, commonAssume...),
+		StateRule: "(key kind, value kind, key pool, allocator mode, log2 history length)",
 	},
 }
